@@ -393,6 +393,11 @@ class VNCLoggingServerFactory(portforward.ProxyFactory):  # type: ignore[misc]
         if isinstance(self.output, str):
             now = time.strftime("%y%m%d-%H%M%S")
             outfile = os.path.join(self.output, "%s.vdo" % now)
+            n = 1
+            while os.path.exists(outfile):
+                # another viewer connected within the same second
+                n += 1
+                outfile = os.path.join(self.output, "%s-%d.vdo" % (now, n))
             self._out = open(outfile, "w")
             return self._out.write
         else:
